@@ -13,6 +13,7 @@ KEYS = {  # key in the subject -> label
     "keeps a monotonic log": "S13",
     "commits only up to the last entry": "S15",
     "acts only under the term it was elected in": "S16",
+    "made a follower while waiting": "S14",
     "verif: observation hooks": "HOOKS",
 }
 log = subprocess.check_output(["git", "-C", "/repo", "log", "--format=%h %s", "-n", "30"], text=True).splitlines()
